@@ -77,9 +77,11 @@ theorem evalInsert_all_rows_ok (db : DB) (table : Bytes) (cols : List Bytes)
   rw [this]
   simp only [evalInsert.go, List.nil_append, Nat.zero_add]
 
-/-- a validation error of a row -/
+/-- a validation error of a row (unknown table, column count, type, integer range, duplicate key,
+a column name the table does not have, a column named twice) -/
 def Refusal (e : SErr) : Prop :=
-  e = .tableNotExist ∨ e = .colCountMismatch ∨ e = .typeMismatch ∨ e = .intOutOfRange ∨ e = .keyExists
+  e = .tableNotExist ∨ e = .colCountMismatch ∨ e = .typeMismatch ∨ e = .intOutOfRange ∨ e = .keyExists ∨
+    e = .fieldNotFound ∨ e = .fieldAmbiguous
 
 /-- C14 for INSERT, first row: statement refused, every page / dirty bit / the data file / the
 header as before, log untouched. -/
@@ -112,14 +114,14 @@ theorem evalCreateTable_err (db : DB) (name : Bytes) (cols : List Sql.ColDef) (f
   simp only [evalCreateTable, liftS, h]
 
 /-- C14 for CREATE TABLE: refused because the table exists (or the catalog cannot be read), because
-a column length is outside `int32`, or because a table / column name is too long for a catalog cell
-(`rowTooLarge`, caught by `checkCatalogRows` before anything is allocated): nothing changed, log
-untouched. -/
+a column length is outside `int32`, because a column name is used twice (`fieldAmbiguous`), or
+because a table / column name is too long for a catalog cell (`rowTooLarge`, caught by
+`checkCatalogRows` before anything is allocated): nothing changed, log untouched. -/
 theorem evalCreateTable_refused (db : DB) (name : Bytes) (cols : List Sql.ColDef)
     (flushOrder : List Nat) (doFlush : Bool) (e : SErr) (s' : Store) (hf : Filed db.store)
     (h : createTable (cols.map colTypeToField) name flushOrder doFlush db.store = .err e s')
     (he : e = .tableAlreadyExist ∨ e = .intOutOfRange ∨ e = .rowTooLarge ∨ e = .typeMismatch ∨
-          e = .colCountMismatch) :
+          e = .colCountMismatch ∨ e = .fieldAmbiguous) :
     ∃ db', evalCreateTable db name cols flushOrder doFlush = .err (.store e) db' ∧
       db'.wal = db.wal ∧ Filed db'.store ∧ SameData db.store db'.store :=
   ⟨{ db with store := s' }, evalCreateTable_err db name cols flushOrder doFlush e s' h, rfl,
